@@ -724,6 +724,20 @@ def plans_mp11_table(F, R):
             ok = len(sub) == 1 and len(find) == 1 and order.index(sub[0]) < order.index(find[0])
             R.ob('C01.plan', ok, {'func': f.q})
             if not ok: R.find('C01.plan', f, 'submachine-first', 'the composite state\'s own process_event must be tried before the state\'s transition chain')
+            # the submachine's answer (e.g. a guard reject) survives the state's own chain: every later write of `result` is an OR or
+            # passes the old value on
+            from rules_order import dependency_closure
+            writes = [i for i in order if f.nodes[i] and f.nodes[i]['k'] == 'asg' and (f.nodes[f.nodes[i]['lhs']] or {}).get('n') == 'result']
+            lost = None
+            for i in writes:
+                n = f.nodes[i]
+                if n['op'] == '|=': continue
+                dep = dependency_closure(f, n['rhs'])
+                from_sub = any(d in sub for d in dep)
+                keeps = any(f.nodes[d] and f.nodes[d]['k'] == 'ref' and f.nodes[d].get('n') == 'result' for d in dep)
+                if not from_sub and not keeps and sub and order.index(i) > order.index(sub[0]): lost = i
+            R.ob('C06.or', lost is None, {'func': f.q, 'writes': [f.expr(i) for i in writes]})
+            if lost is not None: R.find('C06.or', f, 'sub-result-lost', 'the result of the composite state\'s own dispatch is overwritten by %s: a guard reject inside the submachine is reported as "nothing matched" and no_transition is called' % f.expr(lost), where=f.at(lost))
 
 
 @rule('anyevents')
@@ -977,3 +991,108 @@ def explicitidx(F, R):
                 R.ob('C09.region', ok, {'func': f.q, 'state': Facts.short(state_t, 60), 'declared_region': z, 'region_written': k})
                 if not ok:
                     R.find('C09.region', f, 'region', 'explicitly entered state %s is declared in region %d but is activated in region %d' % (Facts.short(state_t, 60), z, k), where=f.at(i), instance=Facts.short(state_t, 160))
+
+@rule('consume')
+def consume(F, R):
+    """C18.consume: while an event is being dispatched the library never moves out of it: an rvalue made from a parameter
+    (std::move / std::forward) is only ever bound to another reference parameter (perfect forwarding down the dispatch chain); it is
+    never the argument of a constructor call or of a by-value parameter.  (Later regions, the internal table, a re-deferral and the
+    caller's own object all still read the event.)"""
+    from rules_core import backend_of
+    for f in F.funcs:
+        be = backend_of(f)
+        if be is None or not f.blocks or f.d.get('sp') in ('ctor', 'copy_ctor', 'move_ctor', 'move_assign', 'copy_assign'): continue
+        if f.file.endswith('basic_polymorphic.hpp'): continue            # value semantics of the pool element itself: C20.poly / C20.block
+        pts = dict(zip([p['n'] for p in f.d.get('params', [])], f.param_types()))
+        sites = []
+        for i, n in f.calls():
+            if n.get('q') in ('std::move', 'std::forward') and n.get('args'):
+                a = f.nodes[n['args'][0]]
+                while a and a['k'] in ('icast', 'cast'): a = f.nodes[a['e']]
+                if a and a['k'] == 'ref' and a.get('dk') == 'param' and 'isit' not in a['n'].lower() and a['n'] not in ('func', 'f', 'visitor', 'vis'):
+                    sites.append((i, a['n']))
+        if not sites: continue
+        R.seen(f); R.anchor('rvalue-of-param:' + be)
+        for i, pn in sites:
+            # who consumes node i ?
+            bad = None
+            for j, m in enumerate(f.nodes):
+                if not m or j == i: continue
+                args = m.get('args') or []
+                # look through implicit casts / temporaries between the consumer and the rvalue
+                def reaches(a):
+                    x = a
+                    for _ in range(6):
+                        if x == i: return True
+                        y = f.nodes[x] if x else None
+                        if not y or y['k'] not in ('icast', 'cast', 'tmp', 'bind', 'paren'): return False
+                        x = y.get('e')
+                    return False
+                for k, a in enumerate(args):
+                    if not reaches(a): continue
+                    if m['k'] == 'ctor': bad = (j, 'constructs a %s from it' % Facts.short(F.strs[m['t']], 60))
+                    elif m['k'] == 'call':
+                        g = F.bykey.get(m.get('fk'))
+                        gp = g.param_types() if g is not None else None
+                        off = 0
+                        if gp is not None and k - off < len(gp) and not gp[k - off].strip().endswith('&'): bad = (j, 'passes it to the by-value parameter %d of %s' % (k, m.get('n')))
+                if m['k'] == 'decl':
+                    for v in m['vars']:
+                        if v.get('hasinit') and not v.get('ref') and reaches(v['init']): bad = (j, 'initialises the local %s from it' % v['n'])
+            R.ob('C18.consume', bad is None, {'func': f.q, 'parameter': pn})
+            if bad:
+                R.find('C18.consume', f, 'moved:' + pn, 'the event parameter %s is turned into an rvalue and this function %s: the event is moved-from while later regions, the internal table, a re-deferral or the caller still read it' % (pn, bad[1]), where=f.at(bad[0]))
+
+CONFIG_HELPERS = {'do_process_helper': 'no_exception_thrown', 'do_pre_msg_queue_helper': 'no_message_queue', 'do_allow_event_processing_after_transition': 'no_message_queue',
+                  'do_post_msg_queue_helper': 'no_message_queue', 'enqueue_event_helper': 'no_message_queue', 'execute_queued_events_helper': 'no_message_queue',
+                  'execute_single_queued_event_helper': 'no_message_queue'}
+
+@rule('config')
+def config(F, R):
+    """C12.config: which variant of a configurable helper a machine uses is decided by the option that helper is about, as the
+    machine's front-end declares it (typedef in the front-end or an element of its `configuration` sequence): the exception-containing
+    dispatch (try / catch) is used unless no_exception_thrown is declared; the queueing helpers follow no_message_queue.  backmp11:
+    process_event_internal / process_completion_transition contain the try block exactly when no_exception_thrown is not declared."""
+    from rules_core import backend_of
+    M = Model(F)
+    def declares(fe, opt): return M.declares_option(fe, opt, through_configuration=True)
+    for f in F.funcs:
+        be = backend_of(f)
+        if be is None or not f.blocks or f.cls not in ('state_machine', 'state_machine_base'): continue
+        m = M.machine_of(F.class_type(f))
+        if m is None or F.rec_by_type(m.fe) is None: continue
+        if be in ('back', 'back11'):
+            for i, n in f.calls():
+                opt = CONFIG_HELPERS.get(n.get('n'))
+                if not opt or n.get('pc') != 'state_machine': continue
+                tag = None
+                for a in n.get('args', []):
+                    x = f.nodes[a]
+                    t = strip_cvref(F.strs[x['t']]) if x and 't' in x else ''
+                    h, ta, r = parse_type(t)
+                    if h in ('mpl_::bool_', 'boost::mpl::bool_', 'std::integral_constant') and ta: tag = ta[-1] in ('true', '1')
+                if tag is None: continue
+                want = declares(m.fe, opt)
+                R.seen(f); R.anchor('config-tag:%s:%s' % (be, n['n']))
+                if want: R.anchor('config-on:%s:%s' % (be, opt))
+                ok = tag == want
+                R.ob('C12.config', ok, {'func': f.q, 'helper': n['n'], 'option': opt, 'declared': want, 'variant_selected': tag})
+                if not ok:
+                    R.find('C12.config', f, 'variant:' + n['n'], 'machine %s %s %s but %s is called with the variant for %s=%s%s' % (Facts.short(m.fe, 50), 'declares' if want else 'does not declare', opt, n['n'], opt, str(tag).lower(),
+                           ': behaviours\' exceptions escape process_event and exception_caught is never called' if n['n'] == 'do_process_helper' and tag else ''), where=f.at(i), instance=Facts.short(m.fe, 120))
+                if n['n'] == 'do_process_helper':
+                    g = F.bykey.get(n.get('fk'))
+                    if g is not None and g.blocks:
+                        has_try = bool(g.d.get('tries'))
+                        ok2 = has_try == (not want)
+                        R.ob('C12.config', ok2, {'func': g.q, 'contains_try': has_try, 'no_exception_thrown': want})
+                        if not ok2: R.find('C12.config', f, 'try:' + n['n'], 'machine %s %s no_exception_thrown but the dispatch helper it calls %s a try block' % (Facts.short(m.fe, 50), 'declares' if want else 'does not declare', 'contains' if has_try else 'has no'), where=f.at(i), instance=Facts.short(m.fe, 120))
+        elif f.n in ('process_event_internal', 'process_completion_transition'):
+            want = M.declares_option(m.fe, 'no_exception_thrown', through_configuration=False)
+            if not any(nn.get('n') in ('do_process_event', 'process_event_internal', 'execute', 'dispatch') for i, nn in f.calls()): continue
+            has_try = bool(f.d.get('tries'))
+            R.seen(f); R.anchor('config-try:backmp11:' + f.n)
+            if want: R.anchor('config-on:backmp11:no_exception_thrown')
+            ok = has_try == (not want)
+            R.ob('C12.config', ok, {'func': f.q, 'contains_try': has_try, 'no_exception_thrown': want})
+            if not ok: R.find('C12.config', f, 'try:' + f.n, 'machine %s %s no_exception_thrown but %s %s a try block' % (Facts.short(m.fe, 50), 'declares' if want else 'does not declare', f.n, 'contains' if has_try else 'has no'), instance=Facts.short(m.fe, 120))
